@@ -485,7 +485,11 @@ def execute(case: dict) -> RunResult:
                             ref["bler"][0] += int(eb.sum())
                             ref["bler"][1] += int(eb.numel())
                         else:
-                            objs["bler"].reset(); ref["bler"] = [0, 0]
+                            # the aliased pair does not divide into blocks: the block metric cannot take it, so both objects
+                            # start over (they must hold the same data for the BER <= BLER comparison to mean anything)
+                            for k2, o2 in objs.items():
+                                o2.reset()
+                                ref[k2] = [0, 0]
                     n_updates += 1
                     res.faults["delivery.aliased_argument_pair"] += 1
         elif op[0] == "reject_live":
